@@ -95,14 +95,16 @@ def run(ctx):
     # one row, several rules: specific and general rules, a %global one among them, a rule and the written-out negation of another
     for k in range(1500 if quick else 25000):
         vendor, prefix = rnd.choice([("huawei", "undo"), ("cisco", "no")])
-        rules, row = aclgen.overlap_acl(rnd, words, prefix)
-        extra = aclgen.random_acl(rnd, words, prefix, 2) if rnd.random() < 0.3 else []
+        # (words may hold a `%` glued to their text -- `50%`, `fe80::1%Vlanif10` -- which is part of the word, not a rule parameter)
+        wds = words + ["50%", "fe80::1%Vlanif10"] if k % 4 == 0 else words
+        rules, row = aclgen.overlap_acl(rnd, wds, prefix)
+        extra = aclgen.random_acl(rnd, wds, prefix, 2) if rnd.random() < 0.3 else []
         acl = rules + extra
-        observe_filter("ovl", vendor, prefix, acl, aclgen.tree_for(rnd, acl, words, prefix, 3, must=row))
+        observe_filter("ovl", vendor, prefix, acl, aclgen.tree_for(rnd, acl, wds, prefix, 3, must=row))
         if k % 3 == 0:
             cut = rnd.randrange(1, len(rules)) if len(rules) > 1 else 1
             observe_merge("ovlmrg", vendor, prefix, aclgen.with_gen(rules[:cut], "A"), aclgen.with_gen(rules[cut:] + extra, "B") or aclgen.random_acl(rnd, words, prefix, gen="B"),
-                          aclgen.tree_for(rnd, acl, words, prefix, 3, must=row))
+                          aclgen.tree_for(rnd, acl, wds, prefix, 3, must=row))
     # catalogue-derived ACLs on TLC-enumerated configurations
     for prof in (["huawei"] if quick else ["huawei", "cisco", "arista"]):
         cat = cases.Catalog(ctx, prof)
